@@ -16,6 +16,7 @@ THEOREMS = [
     "C04_isolation_independent",
     "isolationOk_sound",
     "C04_blocks_exactly_once",
+    "C04_zero_row_blocks_irrelevant",
 ]
 CORR_OPS = ["sched_check:shape", "sched_check:discipline", "sched_check:isolation", "train:dask_eq_numpy"]
 RULE = ("trainers k-means / GMM ML / GMM MAP / ISV and JFA fit_using_array / WCCN / whitening on a Dask array x row chunkings (every "
@@ -55,6 +56,8 @@ def scenario(ctx, i, trainer=None):
         rows = comps[int(r.integers(0, len(comps)))]
     else:
         rows = gen.random_composition(r, N)
+    if trainer in ("kmeans", "gmm_ml", "gmm_map"):
+        rows = gen.with_empty_blocks(r, rows)
     cols = (D,)
     if trainer in ("kmeans", "gmm_ml", "gmm_map") and (wide or r.random() < 0.25) and D >= 2:
         cols = gen.random_composition(r, D)
